@@ -233,13 +233,26 @@ def r11_3(cx):
     a = count.arg(1)
     okc = any(is_call(x, 'to_le_bytes') and x.strip().args[0].strip().kind == 'call' and x.strip().args[0].strip().op.endswith('::len') for x in a.walk() if x.kind == 'call' and x.op.endswith('to_le_bytes'))
     cx.check(okc, 'count-value', fn, count.loc(), '(elements.len() as u32).to_le_bytes()', fail_detail='the count written is %s' % show(a)[:100])
+    # (the accumulator is an Option<u32> or any private two-variant enum with one empty and one u32-carrying variant)
+    def _empty_index(st):
+        if st['rv']['variant'] == 'Some':
+            return 0
+        a = prog.adts.get(st['rv']['name']) or next((x for x in prog.adts.values() if x['name'] == st['rv']['name']), None)
+        if not a or len(a['variants']) != 2:
+            return None
+        empties = [i for i, v in enumerate(a['variants']) if not v['fields']]
+        return empties[0] if len(empties) == 1 and a['variants'][1 - empties[0]]['name'] == st['rv']['variant'] else None
+    seeds = [pos for pos, st in fn.statements() if st['k'] == 'assign' and st['rv']['k'] == 'agg' and len(st['rv']['ops']) == 1 and _empty_index(st) is not None and
+             fn.rvalue_expr(st['rv']).strip().args[0].strip().kind == 'proj' and fn.rvalue_expr(st['rv']).has_call('Iterator>::next')
+             and not fn.rvalue_expr(st['rv']).has_call('saturating_add')]
+    empty = _empty_index(fn.blocks[seeds[0].bb]['st'][seeds[0].idx]) if len(seeds) == 1 else 0
     # offsets: guarded only by acc == Some and the per-length assertion
     facts = fn.facts_at(offs.bb)
     rel_guards = [as_relation((e, v)) for e, v, ed in facts]
     rel_guards = [r for r in rel_guards if r]
     allowed = [r for r in rel_guards if r[0] == 'Le' and r[2].is_const_int(I32MAX)]
     extra = [r for r in rel_guards if r not in allowed]
-    acc_some = [1 for e, v, ed in facts if e.kind == 'discr' and v == ('in', frozenset([1])) and e.a.strip().kind in ('phi', 'agg', 'local')]
+    acc_some = [1 for e, v, ed in facts if e.kind == 'discr' and v == ('in', frozenset([1 - (empty or 0)])) and e.a.strip().kind in ('phi', 'agg', 'local')]
     cx.check(not extra and acc_some, 'offsets:every-but-first', fn, offs.loc(), 'an offset is written on every iteration where the accumulator is Some, with no other condition',
              fail_detail='the offset write is conditional on %s (zero offsets of leading empty values would be dropped)' % [(r[0], show(r[1])[:40], show(r[2])[:20]) for r in extra])
     wv = [x for x in offs.arg(1).walk() if x.kind == 'call' and x.op.endswith('to_le_bytes')]
@@ -251,10 +264,7 @@ def r11_3(cx):
     oks = len(sa) == 1 and fn.pos_dominates(offs.pos, sa[0].pos) and sa[0].arg(1).has_call('Iterator>::next')
     cx.check(oks, 'offsets:accumulate', fn, sa[0].loc() if sa else None, 'sum := sum.saturating_add(len) after writing', fail_detail='the running sum is not sum + current length')
     # first iteration seeds
-    seeds = [pos for pos, st in fn.statements() if st['k'] == 'assign' and st['rv']['k'] == 'agg' and st['rv']['variant'] == 'Some' and
-             fn.rvalue_expr(st['rv']).strip().args[0].strip().kind == 'proj' and fn.rvalue_expr(st['rv']).has_call('Iterator>::next')
-             and not fn.rvalue_expr(st['rv']).has_call('saturating_add')]
-    okf = len(seeds) == 1 and any(e.kind == 'discr' and v == ('in', frozenset([0])) and e.a.strip().kind in ('phi', 'agg', 'local') for e, v, ed in fn.facts_at(seeds[0].bb)) \
+    okf = len(seeds) == 1 and any(e.kind == 'discr' and v == ('in', frozenset([empty])) and e.a.strip().kind in ('phi', 'agg', 'local') for e, v, ed in fn.facts_at(seeds[0].bb)) \
         and offs.bb not in fn.reachable(seeds[0].bb, cut_blocks=[h for h in fn.loop_headers()])
     cx.check(okf, 'offsets:first-seeds', fn, None, 'the first length only seeds the accumulator (nothing written)', fail_detail='the first length is not handled as the silent seed')
     # iterators run over the same elements
